@@ -56,6 +56,9 @@ def never_alters(prog, rep):
         reach = g.reach_filtered(g.entry, lambda u, v, lab: not asserts_missing(lab))
         guarded = node not in reach
         stable = isinstance(path, ast.Name) and len(local_defs(fi, path.id)) == 1
+        if not stable and path is not None and not isinstance(path, ast.Name):
+            # the path written out as an expression: the same text denotes the same file if nothing it reads is re-bound
+            stable = all(not local_defs(fi, nm.id) for nm in ast.walk(path) if isinstance(nm, ast.Name) and isinstance(nm.ctx, ast.Load))
         rep.check(guarded and stable, "NO-CLOBBER", fi.short, f"open({ptxt}, {mode!r})", "only on the branch where the file does not exist", f"the file `{ptxt}` can be opened for writing ({mode}) on a path where it exists (or the path variable is re-bound): an existing user file is overwritten", fi.loc(call), expected=f"dominated by the false edge of os.path.isfile({ptxt})", found="reachable without it")
     # reachable callees
     seen, work = set(), [fi]
@@ -247,7 +250,9 @@ def first_run(prog, rep):
     rep.rule("FIRST-RUN", "on the not-exists branch the file written is _comment_out_toml(default_config) and the user document is empty; _comment_out_toml prefixes '#' to every line that is non-blank and does not start with '[' and joins with newlines")
     lc = prog.func("load_config_toml")
     writes = [n for n in walk_own(lc.node) if isinstance(n, ast.Call) and isinstance(n.func, ast.Attribute) and n.func.attr == "write"]
-    ok = len(writes) == 1 and len(writes[0].args) == 1 and norm(writes[0].args[0]) == f"_comment_out_toml({lc.params[1]})"
+    from ..trace import deep as _deepw
+
+    ok = len(writes) == 1 and len(writes[0].args) == 1 and norm(_deepw(writes[0].args[0], lc)) == f"_comment_out_toml({lc.params[1]})"
     rep.check(ok, "FIRST-RUN", lc.short, "first-run file content", "_comment_out_toml(default_config)", f"the first-run file is written as `{norm(writes[0].args[0]) if writes and writes[0].args else '?'}`: on the next load its live keys would override (or duplicate) the defaults", lc.loc())
     fi = prog.func("_comment_out_toml")
     ok, why = _comment_rule(prog, fi)
